@@ -28,11 +28,16 @@ VARIABLES prog,     \* [funcs, rules, rsets]                        (declaration
 
 vars == <<prog, rows, active, stack, res>>
 
+Has(r, fld) == fld \in DOMAIN r
 BaseSorts == {"i64", "bool", "Unit", "SetI"}
-EqSort(s) == s \notin BaseSorts
+\* container sorts over e-classes (C14): prog.sorts = << [name, kind, elems] .. >> with
+\* kind 1 = Vec, 2 = Set, 3 = MultiSet, 4 = Pair, 5 = Map (elems = <<key sort, value sort>>)
+ContSorts == IF Has(prog, "sorts") THEN {prog.sorts[i].name : i \in 1 .. Len(prog.sorts)} ELSE {}
+IsContSort(s) == s \in ContSorts
+SortRec(s) == CHOOSE q \in {prog.sorts[i] : i \in 1 .. Len(prog.sorts)} : q.name = s
+EqSort(s) == s \notin BaseSorts /\ ~IsContSort(s)
 Fn(f) == prog.funcs[f]
 IsCon(f) == Fn(f).kind = "con"
-Has(r, fld) == fld \in DOMAIN r
 
 IntV(n) == <<0, n>>
 Poison == <<-9>>                       \* result of an illegal (:no-merge) merge
@@ -52,6 +57,51 @@ SortedSeq(S) == IF S = {} THEN <<>>
                 ELSE LET m == CHOOSE x \in S : \A y \in S : x <= y IN <<m>> \o SortedSeq(S \ {m})
 SetV(S) == <<-1>> \o SortedSeq(S)
 ElemsOf(v) == {v[i] : i \in 2 .. Len(v)}
+
+\* ------------------------------------------------------------- container values
+\* <<-3, kind, n, len1, e1.., len2, e2..>> : elements are abstract values (class names, base
+\* values, nested containers), each prefixed by its length so that the value can be decoded
+RECURSIVE DecodeFrom(_, _, _)
+DecodeFrom(v, pos, n) == IF n = 0 THEN <<>>
+                         ELSE <<SubSeq(v, pos + 1, pos + v[pos])>> \o DecodeFrom(v, pos + v[pos] + 1, n - 1)
+Decode(v) == DecodeFrom(v, 4, v[3])
+Encode(k, es) == <<-3, k, Len(es)>> \o FlatCat([i \in 1 .. Len(es) |-> <<Len(es[i])>> \o es[i]])
+
+RECURSIVE InsertSorted(_, _)
+InsertSorted(x, seq) == IF seq = <<>> THEN <<x>>
+                        ELSE IF x = Head(seq) \/ Less(x, Head(seq)) THEN <<x>> \o seq
+                        ELSE <<Head(seq)>> \o InsertSorted(x, Tail(seq))
+RECURSIVE SortVals(_)
+SortVals(seq) == IF seq = <<>> THEN <<>> ELSE InsertSorted(Head(seq), SortVals(Tail(seq)))
+RECURSIVE Dedup(_)
+Dedup(seq) == IF Len(seq) < 2 THEN seq
+              ELSE IF seq[1] = seq[2] THEN Dedup(Tail(seq)) ELSE <<seq[1]>> \o Dedup(Tail(seq))
+\* canonical element sequence of a container kind
+NormC(k, es) == IF k = 2 THEN Dedup(SortVals(es)) ELSE IF k = 3 THEN SortVals(es) ELSE es
+MkCont(k, es) == Encode(k, NormC(k, es))
+
+Ap(m, v) == IF v \in DOMAIN m THEN m[v] ELSE v
+ElemSort(rec, i) == rec.elems[((i - 1) % Len(rec.elems)) + 1]
+
+\* apply the class-id mapping m inside a value of sort srt (and re-normalise containers)
+RECURSIVE MapVal(_, _, _)
+MapVal(srt, v, m) ==
+  IF IsContSort(srt) THEN
+    LET rec == SortRec(srt)
+        es == Decode(v)
+    IN MkCont(rec.kind, [i \in 1 .. Len(es) |-> MapVal(ElemSort(rec, i), es[i], m)])
+  ELSE IF EqSort(srt) THEN Ap(m, v)
+  ELSE v
+
+\* the class ids occurring in a value of sort srt
+RECURSIVE IdsIn(_, _)
+IdsIn(srt, v) ==
+  IF IsContSort(srt) THEN
+    LET rec == SortRec(srt)
+        es == Decode(v)
+    IN UNION {IdsIn(ElemSort(rec, i), es[i]) : i \in 1 .. Len(es)}
+  ELSE IF EqSort(srt) THEN {v}
+  ELSE {}
 
 \* ------------------------------------------------------------- merges
 MergeV(f, old, new) ==
@@ -76,9 +126,13 @@ EqArg(f, i) == EqSort(Fn(f).ins[i])
 EqOut(f) == EqSort(Fn(f).out)
 
 SubV(v, drop, keep) == IF v = drop THEN keep ELSE v
-SubstRow(r, drop, keep) ==
-  [r EXCEPT !.a = [i \in 1 .. Len(r.a) |-> IF EqArg(r.f, i) THEN SubV(r.a[i], drop, keep) ELSE r.a[i]],
-            !.o = IF EqOut(r.f) THEN SubV(r.o, drop, keep) ELSE r.o]
+\* positions whose values can mention class ids: eq-sorts and containers
+IdArg(f, i) == EqArg(f, i) \/ IsContSort(Fn(f).ins[i])
+IdOut(f) == EqOut(f) \/ IsContSort(Fn(f).out)
+MapRow(r, m) ==
+  [r EXCEPT !.a = [i \in 1 .. Len(r.a) |-> IF IdArg(r.f, i) THEN MapVal(Fn(r.f).ins[i], r.a[i], m) ELSE r.a[i]],
+            !.o = IF IdOut(r.f) THEN MapVal(Fn(r.f).out, r.o, m) ELSE r.o]
+SubstRow(r, drop, keep) == MapRow(r, drop :> keep)
 
 \* Congruence closure + functional-dependency repair over opaque class ids.
 \* pend: pairs of ids still to be unioned.
@@ -106,11 +160,11 @@ Close(R, pend) ==
 Poisoned(R) == \E r \in R : r.o = Poison
 
 \* ------------------------------------------------------------- least-term naming
-ClassIds(R) == {r.o : r \in {q \in R : EqOut(q.f)}}
-              \cup UNION {{r.a[i] : i \in {j \in 1 .. Len(r.a) : EqArg(r.f, j)}} : r \in R}
+ClassIds(R) == UNION {IdsIn(Fn(r.f).out, r.o) : r \in R}
+              \cup UNION {UNION {IdsIn(Fn(r.f).ins[i], r.a[i]) : i \in 1 .. Len(r.a)} : r \in R}
 
-AllNamed(r, nm) == \A i \in 1 .. Len(r.a) : EqArg(r.f, i) => nm[r.a[i]] # <<>>
-TermOf(r, nm) == <<r.f>> \o FlatCat([i \in 1 .. Len(r.a) |-> IF EqArg(r.f, i) THEN nm[r.a[i]] ELSE r.a[i]])
+AllNamed(r, nm) == \A i \in 1 .. Len(r.a) : \A id \in IdsIn(Fn(r.f).ins[i], r.a[i]) : nm[id] # <<>>
+TermOf(r, nm) == <<r.f>> \o FlatCat([i \in 1 .. Len(r.a) |-> MapVal(Fn(r.f).ins[i], r.a[i], nm)])
 
 RECURSIVE LeastFix(_, _)
 LeastFix(R, nm) ==
@@ -125,11 +179,10 @@ LeastNames(R) == LeastFix(R, [id \in ClassIds(R) |-> <<>>])
 \* rows renamed by least term; a class without a finite term keeps WildName
 Canonize(R) ==
   LET nm == LeastNames(R)
-      N(v) == IF nm[v] = <<>> THEN WildName ELSE nm[v]
-  IN {[r EXCEPT !.a = [i \in 1 .. Len(r.a) |-> IF EqArg(r.f, i) THEN N(r.a[i]) ELSE r.a[i]],
-                !.o = IF EqOut(r.f) THEN N(r.o) ELSE r.o] : r \in R}
+      nmw == [id \in DOMAIN nm |-> IF nm[id] = <<>> THEN WildName ELSE nm[id]]
+  IN {MapRow(r, nmw) : r \in R}
 
-IsWild(R) == \E r \in R : (EqOut(r.f) /\ r.o = WildName) \/ (\E i \in 1 .. Len(r.a) : EqArg(r.f, i) /\ r.a[i] = WildName)
+IsWild(R) == WildName \in ClassIds(R)
 
 Normalize(R, pairs) == Canonize(Close(R, pairs))
 
@@ -140,6 +193,7 @@ RECURSIVE EvalG(_, _), EvalGArgs(_, _, _, _)
 EvalG(R, t) ==
   IF Has(t, "i") THEN <<R, IntV(t.i)>>
   ELSE IF Has(t, "set") THEN <<R, SetV({t.set[k] : k \in 1 .. Len(t.set)})>>
+  ELSE IF Has(t, "c") THEN LET ec == EvalGArgs(R, t.a, 1, <<>>) IN <<ec[1], MkCont(SortRec(t.c).kind, ec[2])>>
   ELSE LET ea == EvalGArgs(R, t.a, 1, <<>>)
            R1 == ea[1]
            as == ea[2]
@@ -157,6 +211,7 @@ LookG(R, t) ==
   ELSE IF Has(t, "set") THEN SetV({t.set[k] : k \in 1 .. Len(t.set)})
   ELSE LET as == [k \in 1 .. Len(t.a) |-> LookG(R, t.a[k])] IN
        IF \E k \in 1 .. Len(as) : as[k] = <<>> THEN <<>>
+       ELSE IF Has(t, "c") THEN MkCont(SortRec(t.c).kind, as)
        ELSE LET hit == RowsAt(R, t.f, as) IN
             IF hit = {} THEN <<>> ELSE (CHOOSE r \in hit : TRUE).o
 
@@ -184,7 +239,9 @@ CmpHolds(at, s) ==
      ELSE FALSE
 
 Extend(R, at, s, inclSub) ==
-  IF at.k = "tab" THEN
+  IF at.k = "mk" THEN    \* o = (vec-of a..) etc.: a container built from bound values
+    Unify(<<at.o>>, <<MkCont(SortRec(at.c).kind, [i \in 1 .. Len(at.a) |-> SpecVal(at.a[i], s)])>>, 1, s)
+  ELSE IF at.k = "tab" THEN
     UNION {Unify(Append(at.a, at.o), Append(r.a, r.o), 1, s) :
              r \in {q \in R : q.f = at.f /\ (inclSub \/ ~q.s)}}
   ELSE IF CmpHolds(at, s) THEN {s} ELSE {}
@@ -211,7 +268,8 @@ EvalH(R, new, t, s) ==
   ELSE LET ea == EvalHArgs(R, new, t.a, s, 1, <<>>)
            n1 == ea[1]
            as == ea[2]
-       IN IF Has(t, "p") THEN
+       IN IF Has(t, "c") THEN <<n1, MkCont(SortRec(t.c).kind, as)>>
+          ELSE IF Has(t, "p") THEN
             <<n1, IntV(IF t.p = "+" THEN as[1][2] + as[2][2]
                        ELSE IF t.p = "-" THEN as[1][2] - as[2][2]
                        ELSE IF t.p = "*" THEN as[1][2] * as[2][2]
